@@ -212,6 +212,33 @@ def coq_obligations(pid, targets, axioms_allowed=(), make_timeout=1500):
     return res
 
 
+def coqchk(pid, allowed=(), timeout=1800):
+    """thorough tier: re-check the compiled Props file and everything it depends on with the independent checker and
+    list the axioms of the whole context. Returns (summary dict, failures list)."""
+    rc, out = sh(["coqchk", "-o", "-silent", "-Q", ".", "AN", "AN.Props.%s" % pid], cwd=COQ, timeout=timeout)
+    info = {"rc": rc}
+    fails = []
+    if rc != 0:
+        fails.append("coqchk AN.Props.%s failed (rc=%d): %s" % (pid, rc, out[-1500:]))
+        return info, fails
+    m = re.search(r"\* Axioms:(.*?)\n\s*\n\* Constants/Inductives relying on type-in-type:(.*?)\n\s*\n"
+                  r"\* Constants/Inductives relying on unsafe \(co\)fixpoints:(.*?)\n\s*\n\* Inductives whose positivity is assumed:(.*?)\n", out, re.S)
+    if not m:
+        fails.append("coqchk output not understood: %s" % out[-800:])
+        return info, fails
+    names = ["axioms", "type_in_type", "unsafe_fixpoints", "assumed_positivity"]
+    for k, v in zip(names, m.groups()):
+        items = [x.strip() for x in v.strip().split("\n") if x.strip() and x.strip() != "<none>"]
+        info[k] = items
+    extra = [a for a in info["axioms"] if a not in allowed and a.split(".")[-1] not in allowed]
+    if extra:
+        fails.append("coqchk: context relies on axioms not in the allow-list: %s" % ", ".join(extra))
+    for k in names[1:]:
+        if info[k]:
+            fails.append("coqchk: %s: %s" % (k, ", ".join(info[k])))
+    return info, fails
+
+
 def coq_crosscheck(pid, goals, timeout=600):
     """Evaluate sampled cases inside Coq (vm_compute) and compare with the extracted run: `goals` is a list
     of (lhs, rhs) Gallina terms plus the needed imports; guards the extraction. Returns (n_ok, failures)."""
@@ -593,6 +620,10 @@ def run_property(plugin, tier, seed):
     ctx = Ctx(meta, tier, seed)
     # 1. proofs
     proof = coq_obligations(ctx.pid, meta.get("coq_targets", []), meta.get("axioms_allowed", ()))
+    if tier == "thorough" and not proof["failures"]:
+        info, fails = coqchk(ctx.pid, meta.get("axioms_allowed", ()))
+        ctx.cov["coqchk"] = info
+        proof["failures"] += fails
     proof_broken = bool(proof["failures"])
     # 2. builds
     try:
